@@ -1417,10 +1417,13 @@ func worker(o *hx.Opts, from int) {
 	emit(line{T: "done"})
 }
 
+const taskTimeout = 90 * time.Second
+
 func supervise(o *hx.Opts) {
 	w := hx.NewWriter(o)
 	defer w.Close()
 	from := 0
+	hangs := 0
 	for restarts := 0; restarts < 200; restarts++ {
 		args := []string{"-worker", "-from", strconv.Itoa(from), "-seed", strconv.FormatUint(o.Seed, 10), "-tier", o.Tier}
 		if o.Only != "" {
@@ -1438,20 +1441,57 @@ func supervise(o *hx.Opts) {
 		sc.Buffer(make([]byte, 1<<20), 256<<20)
 		var pending *line
 		done := false
-		for sc.Scan() {
-			var l line
-			if json.Unmarshal(sc.Bytes(), &l) != nil {
-				continue
+		hung := false
+		lines := make(chan line, 64)
+		go func() {
+			for sc.Scan() {
+				var l line
+				if json.Unmarshal(sc.Bytes(), &l) == nil {
+					lines <- l
+				}
 			}
-			switch l.T {
-			case "start":
-				ll := l
-				pending = &ll
-			case "case":
-				w.Emit(l.Kind, *l.Case)
-			case "done":
-				done = true
+			close(lines)
+		}()
+	read:
+		for {
+			select {
+			case l, ok := <-lines:
+				if !ok {
+					break read
+				}
+				switch l.T {
+				case "start":
+					ll := l
+					pending = &ll
+				case "case":
+					w.Emit(l.Kind, *l.Case)
+				case "done":
+					done = true
+				}
+			case <-time.After(taskTimeout):
+				// a task that produces nothing for this long hangs (a dump or Close that never returns)
+				hung = true
+				cmd.Process.Kill()
+				break read
 			}
+		}
+		if hung {
+			for range lines {
+			}
+			cmd.Wait()
+			if pending == nil {
+				fmt.Fprintln(os.Stderr, "c19: worker hung before its first task")
+				w.Close()
+				os.Exit(3)
+			}
+			w.Violation(pending.ID, fmt.Sprintf("the cache did not finish this task within %v (a dump, load or Close that never returns)", taskTimeout),
+				map[string]any{"kind": pending.Kind, "task": pending.ID})
+			from = pending.Idx + 1
+			hangs++
+			if hangs >= 2 {
+				return // enough: every further hang costs the full timeout
+			}
+			continue
 		}
 		cmd.Wait()
 		if done {
